@@ -193,3 +193,19 @@ Definition mw_monitor (calls : list (N * hout)) (tab : list (hlabel * nat)) : bo
   forallb (fun e => Nat.eqb (lookup hlabel_eqb (fst e) tab) (hspec (fst e) calls)) tab
   && forallb (fun c => let l := (fst c, match snd c with HOk => true | _ => false end) in
                        Nat.eqb (lookup hlabel_eqb l tab) (hspec l calls)) calls.
+
+(** ** delay.For / delay.Until: delayed-until = clock + delayed-for, for a clock reading
+    between the two brackets taken around the call *)
+Definition agree_within (t0 t1 : Z) (d : delay) : bool :=
+  Z.leb ((t0 + d_dur d) / ns_per_s) (d_sec d) && Z.leb (d_sec d) ((t1 + d_dur d) / ns_per_s).
+
+(** ** the observation records a model run produces (what the harness records of a real run) *)
+Fixpoint pobs_run (st : list pdec) (s : pstate) (calls : list pcall) : list pobs :=
+  match calls with
+  | [] => []
+  | c :: cs =>
+      let b := map snd (read (ps_heap s) (pc_batch c)) in
+      let o := publish st (ps_script s) (pc_topic c) b in
+      PObs (pc_topic c) b (po_ev o) (hd None (ps_script s)) (po_res o) (po_msgs o)
+      :: pobs_run st (pstep st s c) cs
+  end.
